@@ -119,7 +119,8 @@ fn run_decoders(ctx: &mut Ctx, lit: &[u8], pre: usize, post: usize, label: &str)
     };
     let es = |e: sonic_rs::Error| Got::Rejected(e.to_string());
 
-    // ---- strict decoders
+    // ---- strict decoders (in a `utf8_lossy` feature build from_slice is lossy: see below)
+    if !cfg!(feature = "utf8_lossy") {
     let g = match sonic_rs::from_slice::<Value>(&whole) {
         Ok(v) => match v.as_str() {
             Some(s) => Got::Str(s.to_string(), None),
@@ -257,6 +258,7 @@ fn run_decoders(ctx: &mut Ctx, lit: &[u8], pre: usize, post: usize, label: &str)
         }
     }
 
+    }
     // ---- lossy decoders
     let g = match Deserializer::from_slice(&whole).utf8_lossy().deserialize::<Value>() {
         Ok(v) => match v.as_str() {
@@ -294,6 +296,30 @@ fn run_decoders(ctx: &mut Ctx, lit: &[u8], pre: usize, post: usize, label: &str)
             Err(e) => es(e),
         };
         verdict(ctx, "feature:String", g, &lossy, true, true);
+        let g = match sonic_rs::from_slice::<Value>(&whole) {
+            Ok(v) => match v.as_str() {
+                Some(s) => Got::Str(s.to_string(), None),
+                None => Got::NoStr,
+            },
+            Err(e) => es(e),
+        };
+        verdict(ctx, "feature:Value(in-place)", g, &lossy, true, true);
+        let g = match sonic_rs::from_slice::<Emb>(&emb) {
+            Ok(v) => match v.v.as_str() {
+                Some(s) => Got::Str(s.to_string(), None),
+                None => Got::NoStr,
+            },
+            Err(e) => es(e),
+        };
+        verdict(ctx, "feature:Value(copy)", g, &lossy, true, true);
+        let g = match sonic_rs::from_slice::<HashMap<String, u8>>(&keyd) {
+            Ok(m) => match m.into_iter().next() {
+                Some((k, _)) => Got::Str(k, None),
+                None => Got::NoStr,
+            },
+            Err(e) => es(e),
+        };
+        verdict(ctx, "feature:HashMap key", g, &lossy, true, true);
     }
 }
 
